@@ -114,6 +114,7 @@ let handle (ask : Stdlib.String.t -> Stdlib.String.t) (words : Stdlib.String.t l
   | ["infosf"; file; "0"] -> step (SInfoSF (path_of_tok file, None))
   | ["infosf"; file; "1"; root] -> step (SInfoSF (path_of_tok file, Some (path_of_tok root)))
   | ["flatten"; root] -> step (SFlatten (path_of_tok root))
+  | "verifypl" :: rest -> toks := rest; let root = next_path () in let src = next_path () in let ipats = next_list next_text in step (SVerifyPL (root, src, ipats))
   | ["set"; p; data] -> step (SSet (path_of_tok p, bytes_of_hex data))
   | ["mkdir"; p] -> step (SMkdir (path_of_tok p))
   | ["delete"; p] -> step (SDelete (path_of_tok p))
